@@ -296,6 +296,56 @@ impl<T: Elem, C: ArrayLength + PartialEq> Sys<T, C> {
         if into.len() != rows || into.iter().zip(&self.model).any(|(a, b)| *a != b.as_slice()) {
             return Err("&m IntoIterator does not visit exactly the rows in order".into());
         }
+        // INTERNAL iteration (fold / rfold / for_each / last go through the iterator's own overrides)
+        {
+            // (size_hint() is NOT checked: the row iterators return the default (0, None) although they are
+            // ExactSizeIterators - untidy, but the statement speaks of which rows are visited, not of hints)
+            let mut seen: Vec<&[T]> = Vec::new();
+            m.iter().for_each(|r| seen.push(r));
+            if seen.len() != rows || seen.iter().zip(&self.model).any(|(a, b)| *a != b.as_slice()) {
+                return Err("iter().for_each() does not visit exactly the rows in order".into());
+            }
+            let mut seen: Vec<&[T]> = Vec::new();
+            m.iter().rev().for_each(|r| seen.push(r));
+            if seen.len() != rows || seen.iter().zip(self.model.iter().rev()).any(|(a, b)| *a != b.as_slice()) {
+                return Err("iter().rev().for_each() does not visit exactly the rows in reverse order".into());
+            }
+            let order: Vec<usize> = m.iter().rfold(Vec::new(), |mut acc, r| {
+                acc.push(self.model.iter().position(|x| x.as_slice() == r).unwrap_or(usize::MAX));
+                acc
+            });
+            let distinct = (0..rows).all(|i| (0..i).all(|k| self.model[i] != self.model[k]));
+            if order.len() != rows || (distinct && order.iter().enumerate().any(|(k, &i)| i != rows - 1 - k)) {
+                return Err(format!("iter().rfold() visits rows in the order {:?}", order));
+            }
+            let first_by_rev_last = m.iter().rev().last();
+            if first_by_rev_last != self.model.first().map(|x| x.as_slice()) {
+                return Err("iter().rev().last() is not the first row".into());
+            }
+            if m.iter().last() != self.model.last().map(|x| x.as_slice()) {
+                return Err("iter().last() is not the last row".into());
+            }
+            let mut idx: Vec<(usize, &[T])> = Vec::new();
+            m.iter().rev().enumerate().for_each(|(k, r)| idx.push((k, r)));
+            if idx.iter().any(|&(k, r)| r != self.model[rows - 1 - k].as_slice()) {
+                return Err("iter().rev().enumerate().for_each() pairs indices with the wrong rows".into());
+            }
+        }
+        // from_rows given the matrix's own iterators (ExactSizeIterator whose len() is the row count)
+        {
+            let a = DenseMatrix::<T, C>::from_rows(m.iter());
+            let b = DenseMatrix::<T, C>::from_rows(&*m);
+            let c2 = DenseMatrix::<T, C>::from_rows(m.iter().map(|r| r.to_vec()));
+            let d = DenseMatrix::<T, C>::from_rows(m.iter().rev());
+            for (name, x) in [("from_rows(m.iter())", &a), ("from_rows(&m)", &b), ("from_rows(m.iter().map(to_vec))", &c2)] {
+                if x.rows() != rows || (0..rows).any(|i| &x[i] != self.model[i].as_slice()) {
+                    return Err(format!("{} has {} rows / different cells, the source has {}", name, x.rows(), rows));
+                }
+            }
+            if d.rows() != rows || (0..rows).any(|i| &d[i] != self.model[rows - 1 - i].as_slice()) {
+                return Err(format!("from_rows(m.iter().rev()) has {} rows / different cells, the source has {}", d.rows(), rows));
+            }
+        }
         // mixed front/back consumption
         {
             let mut it = m.iter();
@@ -339,6 +389,14 @@ impl<T: Elem, C: ArrayLength + PartialEq> Sys<T, C> {
                 k -= 1;
                 if row != self.model[k].as_slice() {
                     return Err(format!("iter_mut().rev() row {} differs from model", k));
+                }
+            }
+            // reverse mutable pass through internal iteration: tag column 0 of every row with its reverse rank
+            let mut tagged = m.clone();
+            tagged.iter_mut().rev().enumerate().for_each(|(k, row)| row[0] = T::from_u8((k % 200) as u8 + 1));
+            for i in 0..rows {
+                if tagged[i][0] != T::from_u8(((rows - 1 - i) % 200) as u8 + 1) {
+                    return Err(format!("iter_mut().rev().enumerate().for_each() wrote row {} with the wrong rank", i));
                 }
             }
         }
@@ -519,7 +577,7 @@ pub fn run(ctx: &mut Ctx, rep: &mut Report) {
         "histories",
         &format!(
             "explicit-state BFS over the real DenseMatrix<T,C> for T in {{u8,u32,f32,i64,Nucleotide (default value N is not the all-zero pattern)}} x C in {{1,5,7,16,21,32,43}}; \
-             {} operations (new/with_capacity/from_rows/uninitialized+write/resize/fill/IndexMut<usize>/IndexMut<MatrixCoordinates>/iter_mut/clone/clone_from/reserve), \
+             {} operations (new/with_capacity/from_rows/uninitialized+write/resize/fill/IndexMut<usize>/IndexMut<MatrixCoordinates>/iter_mut/clone/clone_from/reserve); in every state also internal iteration (for_each/rfold/last, forwards and reversed, shared and mutable) and from_rows fed with the matrix's own iterators, \
              all histories to depth {} with canonical-state de-duplication (rows, capacity<=24, logical cells); \
              a state is non-trivial when distinct by that key; every transition re-executes its whole history on a fresh matrix and is checked against the Vec<Vec<T>> model",
             ops(ctx.quick()).len(),
